@@ -52,7 +52,10 @@ var outParams = map[string]OutParam{
 
 // lookupOutParam: the table above, plus the schema decoder `X.Decoder().Decode(target, form)`, which writes
 // the decoded form through its first argument.
-func lookupOutParam(callee string) (OutParam, bool) {
+func (t *tr) lookupOutParam(callee string) (OutParam, bool) {
+	if op, ok := t.spec.OutParams[callee]; ok {
+		return op, true
+	}
 	if op, ok := outParams[callee]; ok {
 		return op, true
 	}
@@ -96,6 +99,13 @@ type FuncSpec struct {
 	// `v, err := f(..)` becomes `let (v, err) := f ..` (the Lean twins return pairs of nil-able values), `if err != nil`
 	// is an ordinary conditional and `return v, err` a tuple (use with Ret: RetVal)
 	PairStyle bool
+	// --- style flags added for the resource endpoints (C08); all default to off, so existing groups are unaffected
+	OutParams    map[string]OutParam // spec-local out-parameters (callee text -> position), consulted before the global table
+	TupleAssign  bool                // `a, b, c := f(..)` / `a, b, c = f(..)` (no error result): tuple destructuring, field targets are written back
+	ErrNilFirst  bool                // `v, err := f(..); if err == nil { ..return }; rest`  ->  match with the SUCCESS branch guarded, rest = error branch
+	ErrElse      bool                // `a, b, err := f(..); if err != nil {..} else {..}`: the else block is the success branch
+	NestedUpdate bool                // `a.B.C = e`  ->  let a := { a with B := { a.B with C := e } }
+	WorldType    string              // Writer functions: Lean type of the threaded world ("World" when empty)
 }
 
 // StructLit: `&pkg.T{K: V, ...}` becomes `({ K := V, ... } : Lean)`, restricted to the fields in Keep.
@@ -311,6 +321,15 @@ func (t *tr) bindTarget(e ast.Expr) (binder, post string) {
 			a := t.ident(id.Name)
 			b := "v_" + id.Name + "_" + sel.Sel.Name
 			return b, "let " + a + " := ({ " + a + " with " + sel.Sel.Name + " := " + b + " } : type_of% " + a + ");\n" + t.pad()
+		}
+		if mid, ok := sel.X.(*ast.SelectorExpr); ok && t.spec.NestedUpdate {
+			if id, ok := mid.X.(*ast.Ident); ok {
+				// a.B.C  ->  fresh binder, then  let a := { a with B := { a.B with C := binder } }
+				a := t.ident(id.Name)
+				b := "v_" + id.Name + "_" + mid.Sel.Name + "_" + sel.Sel.Name
+				inner := "(" + a + ")." + mid.Sel.Name
+				return b, "let " + a + " := ({ " + a + " with " + mid.Sel.Name + " := ({ " + inner + " with " + sel.Sel.Name + " := " + b + " } : type_of% " + inner + ") } : type_of% " + a + ");\n" + t.pad()
+			}
 		}
 		return t.bad("assignment target", e), ""
 	}
@@ -603,7 +622,7 @@ func (t *tr) okPattern(call ast.Expr, v string) string {
 	if ix, ok := fun.(*ast.IndexExpr); ok {
 		fun = ix.X
 	}
-	op, ok := lookupOutParam(exprString(fun))
+	op, ok := t.lookupOutParam(exprString(fun))
 	if !ok || op.Index >= len(c.Args) {
 		return v
 	}
@@ -641,7 +660,7 @@ func (t *tr) args(as []ast.Expr) string {
 
 func (t *tr) argsOf(callee string, as []ast.Expr) string {
 	var out []string
-	op, hasOp := lookupOutParam(callee)
+	op, hasOp := t.lookupOutParam(callee)
 	for i, a := range as {
 		if isCtxArg(a) || t.dropped(a) {
 			continue
@@ -1305,6 +1324,19 @@ func (t *tr) block(stmts []ast.Stmt, k cont) string {
 				return "let (" + a + ", " + b + ") := " + t.expr(call) + ";\n" + t.pad() + rest()
 			}
 		}
+		// a, b, c := f(...)   n plain results (no error): tuple destructuring; field targets are bound to fresh names and written back
+		if t.spec.TupleAssign && len(x.Lhs) >= 3 && len(x.Rhs) == 1 && exprString(x.Lhs[len(x.Lhs)-1]) != "err" {
+			if call, ok := x.Rhs[0].(*ast.CallExpr); ok && !ignorableCall(call) {
+				var names []string
+				posts := ""
+				for _, l := range x.Lhs {
+					b, p := t.bindTarget(l)
+					names = append(names, b)
+					posts += p
+				}
+				return "let (" + strings.Join(names, ", ") + ") := " + t.expr(call) + ";\n" + t.pad() + posts + rest()
+			}
+		}
 		// a, b, err := f(...)   followed by   if err != nil { ... }
 		if len(x.Lhs) > 2 && len(x.Rhs) == 1 && exprString(x.Lhs[len(x.Lhs)-1]) == "err" && len(stmts) > 1 {
 			if ifs, ok := stmts[1].(*ast.IfStmt); ok && ifs.Init == nil && isErrNotNil(ifs.Cond) && ifs.Else == nil {
@@ -1320,6 +1352,22 @@ func (t *tr) block(stmts []ast.Stmt, k cont) string {
 				t.errInScope = saved
 				t.indent--
 				return "(match " + t.expr(x.Rhs[0]) + " with\n" + t.pad() + "| .error err => " + errBranch + "\n" + t.pad() + "| .ok (" + strings.Join(names, ", ") + ") =>\n" + t.pad() + cont() + ")"
+			}
+			if ifs, ok := stmts[1].(*ast.IfStmt); ok && ifs.Init == nil && isErrNotNil(ifs.Cond) && ifs.Else != nil && t.spec.ErrElse {
+				// ... if err != nil { E } else { S }: S is the success branch, both continue with the statements after the if
+				var names []string
+				for _, l := range x.Lhs[:len(x.Lhs)-1] {
+					names = append(names, t.ident(exprString(l)))
+				}
+				cont := memo(func() string { return t.block(stmts[2:], k) })
+				t.indent++
+				saved := t.errInScope
+				t.errInScope = true
+				errBranch := t.block(ifs.Body.List, cont)
+				t.errInScope = saved
+				okBranch := t.elseBranch(ifs.Else, cont)
+				t.indent--
+				return "(match " + t.expr(x.Rhs[0]) + " with\n" + t.pad() + "| .error err => " + errBranch + "\n" + t.pad() + "| .ok (" + strings.Join(names, ", ") + ") =>\n" + t.pad() + okBranch + ")"
 			}
 		}
 		// x, err = f(...)   followed by   return ..., err      (error propagated by the return itself)
@@ -1397,6 +1445,22 @@ func (t *tr) block(stmts []ast.Stmt, k cont) string {
 					return "(match " + t.expr(call) + " with\n" + t.pad() + "| " + t.wpat(call, ".error err") + " => " + zb + errBranch + "\n" + t.pad() + "| " + t.wpat(call, ".ok "+t.okPattern(call, v)) + " =>\n" + t.pad() + post + t.takePost() + cont() + ")"
 				}
 			}
+			if ok && len(stmts) > 1 && t.spec.ErrNilFirst {
+				// v, err := f(...)   followed by   if err == nil { S }   (the success branch is the guarded one; what follows runs after an error
+				// or when S falls through)
+				if ifs, isIf := stmts[1].(*ast.IfStmt); isIf && ifs.Init == nil && isErrIsNil(ifs.Cond) && ifs.Else == nil {
+					v, post := t.bindTarget(x.Lhs[0])
+					cont := memo(func() string { return t.block(stmts[2:], k) })
+					t.indent++
+					okBranch := t.block(ifs.Body.List, cont)
+					saved := t.errInScope
+					t.errInScope = true
+					errBranch := cont()
+					t.errInScope = saved
+					t.indent--
+					return "(match " + t.expr(call) + " with\n" + t.pad() + "| .ok " + t.okPattern(call, v) + " =>\n" + t.pad() + post + t.takePost() + okBranch + "\n" + t.pad() + "| .error err =>\n" + t.pad() + errBranch + ")"
+				}
+			}
 			return t.bad("two-value assignment without error check", x)
 		}
 		if len(x.Lhs) == 2 && len(x.Rhs) == 1 {
@@ -1457,6 +1521,11 @@ func (t *tr) block(stmts []ast.Stmt, k cont) string {
 					return "let " + v + " := { " + v + " with " + sel.Sel.Name + " := " + t.expr(x.Rhs[0]) + " };\n" + t.pad() + rest()
 				}
 			}
+			if c, ok := x.Rhs[0].(*ast.CallExpr); ok && exprString(c.Fun) == "new" && len(c.Args) == 1 {
+				if z, ok := t.spec.Rename["new("+exprString(c.Args[0])+")"]; ok {
+					return "let " + t.ident(exprString(x.Lhs[0])) + " := " + z + ";\n" + t.pad() + rest() // the zero value the model works on
+				}
+			}
 			if c, ok := x.Rhs[0].(*ast.CallExpr); ok && exprString(c.Fun) == "new" {
 				return rest() // pure allocation of an out-parameter target
 			}
@@ -1468,6 +1537,10 @@ func (t *tr) block(stmts []ast.Stmt, k cont) string {
 				if id, ok := sel.X.(*ast.Ident); ok {
 					v := t.ident(id.Name)
 					return "let " + v + " := { " + v + " with " + sel.Sel.Name + " := " + t.expr(x.Rhs[0]) + " };\n" + t.pad() + rest()
+				}
+				if t.spec.NestedUpdate {
+					b, post := t.bindTarget(x.Lhs[0])
+					return "let " + b + " := " + t.expr(x.Rhs[0]) + ";\n" + t.pad() + post + rest()
 				}
 				return t.bad("assignment to a nested field", x)
 			}
@@ -1845,7 +1918,11 @@ func translateFunc(fset *token.FileSet, fd *ast.FuncDecl, spec *FuncSpec) (strin
 		if spec.Ret == RetVoid || spec.Ret == RetHandler {
 			rt = wt
 		} else {
-			rt = "(World × " + rt + ")"
+			if spec.WorldType != "" {
+				rt = "(" + spec.WorldType + " × " + rt + ")"
+			} else {
+				rt = "(World × " + rt + ")"
+			}
 		}
 	}
 	t := &tr{spec: spec, fset: fset, indent: 1, fresh: map[string]bool{}, declared: map[string]bool{}, rt: "(" + rt + ")"}
